@@ -1137,7 +1137,29 @@ impl<T: Payload> World<T> {
             Op::Reserve { n } => {
                 let before = self.arena.clone();
                 let obs = self.state_digest();
-                let r = catch(|| self.arena.reserve(*n as usize));
+                // encodings: u32::MAX = usize::MAX (documented panic: capacity overflow);
+                // 1_000_000 + d = exactly the spare capacity plus d (the boundary of "already enough")
+                let spare = self.arena.capacity().saturating_sub(self.arena.count());
+                let k: usize = match *n {
+                    u32::MAX => usize::MAX,
+                    // (each such request doubles the capacity: no more of them once it is large)
+                    x if x >= 1_000_000 && spare <= 50_000 => spare + (x - 1_000_000) as usize,
+                    x if x >= 1_000_000 => 1,
+                    x => x as usize,
+                };
+                let n = &k;
+                let r = catch(|| self.arena.reserve(k));
+                if k == usize::MAX {
+                    self.stats.probe("reserve_usize_max");
+                    out.class = if r.is_ok() { Class::Ok } else { Class::Panic };
+                    if r.is_ok() {
+                        out.viols.push(viol("C13", "reserve_too_small", "reserve(usize::MAX) returned although no such room can exist (documented: panics)"));
+                    }
+                    if self.arena != before || self.state_digest() != obs {
+                        out.viols.push(viol("C13", "reserve_changed_arena", "reserve(usize::MAX)"));
+                    }
+                    return;
+                }
                 match r {
                     Ok(()) => {
                         if self.arena.capacity() < self.arena.count() + *n as usize {
@@ -1539,7 +1561,22 @@ impl<T: Payload> World<T> {
     }
 
     fn do_insert(&mut self, kind: Kind, checked: bool, a: Key, b: Key, out: &mut StepOut) {
-        let (ida, idb) = (self.idk(a), self.idk(b));
+        let (mut ida, mut idb) = (self.idk(a), self.idk(b));
+        // A removed node can also be named by the id that `get_node_id` builds from a reference to
+        // its slot (same position, the slot's current stamp): one tombstone key in three is
+        // offered that way. The request is just as impossible.
+        for (k, id) in [(a, &mut ida), (b, &mut idb)] {
+            if self.m.is_tomb(k) && k % 3 == 0 {
+                let arena = &self.arena;
+                let cur = *id;
+                if let Ok(Some(x)) = catch(|| arena.get(cur).and_then(|n| arena.get_node_id(n))) {
+                    if slot_of(x) == slot_of(cur) {
+                        *id = x;
+                        self.stats.probe("tombstone_named_via_get_node_id");
+                    }
+                }
+            }
+        }
         let rel = classify(&self.m, a, b);
         out.rel = rel;
         let (impossible, reasons) = self.predict_insert(a, b);
